@@ -132,7 +132,8 @@ def findLoop (e : Endian) (ix : UnitIndex) (id mask hash2 : Nat) : Nat â†’ Nat â
 
 /-- `UnitIndex::find` with the probe count -/
 def findN (e : Endian) (ix : UnitIndex) (id : Nat) : Option Nat Ã— Nat :=
-  if ix.slotCount = 0 then (none, 0)
+  -- "An ID of 0 marks an unused slot, so it is never present."
+  if ix.slotCount = 0 âˆ¨ id = 0 then (none, 0)
   else
     let mask := ix.slotCount - 1
     let hash1 := id &&& mask
@@ -189,5 +190,16 @@ def packageSlices (pkg : SecKind â†’ Bytes) (cols : List (SecKind Ã— Nat Ã— Nat)
     let s â† dwpRange (pkg k) c.1 c.2
     let rest â† packageSlices pkg cols ks
     pure ((k, s) :: rest)
+
+/-- `DwarfPackage::find_cu` / `find_tu` up to the slicing: `find`, then `sections(row)`, then the
+ten `dwp_range` calls; `Ok(None)` when the id is not in the index -/
+def findUnit (e : Endian) (ix : UnitIndex) (pkg : SecKind â†’ Bytes) (id : Nat) :
+    Out (Option (Nat Ã— List (SecKind Ã— Bytes))) :=
+  match find e ix id with
+  | none => .ok none
+  | some row => do
+    let cols â† sections e ix row
+    let slices â† packageSlices pkg cols sliceOrder
+    pure (some (row, slices))
 
 end Gimli.Index
